@@ -429,7 +429,7 @@ func writeComputedFieldExpression(w *formatting.IndentedWriter, expression dsl.E
 		case *dsl.BinaryExpression:
 			tail.Run(func() {
 				requiresParentheses := false
-				if l, ok := t.Left.(*dsl.BinaryExpression); ok && l.Operator.Precedence() < t.Operator.Precedence() {
+				if l, ok := t.Left.(*dsl.BinaryExpression); ok && (l.Operator.Precedence() < t.Operator.Precedence() || (t.Operator == dsl.BinaryOpPow && l.Operator == dsl.BinaryOpPow)) {
 					requiresParentheses = true
 				}
 
@@ -461,7 +461,8 @@ func writeComputedFieldExpression(w *formatting.IndentedWriter, expression dsl.E
 				w.WriteString(" ")
 
 				requiresParentheses = false
-				if r, ok := t.Right.(*dsl.BinaryExpression); ok && r.Operator.Precedence() < t.Operator.Precedence() {
+				// operators of equal precedence associate to the left, so `a - (b - c)` must keep its parentheses
+				if r, ok := t.Right.(*dsl.BinaryExpression); ok && r.Operator.Precedence() <= t.Operator.Precedence() {
 					requiresParentheses = true
 				}
 
